@@ -26,6 +26,10 @@ type LZWCase struct {
 	// been written; the caller writes the rest and closes again)
 	// ByteSink: the sink also implements io.ByteWriter (the writer then works without its own bufio layer)
 	ByteSink bool `json:",omitempty"`
+	// Feed: how the input that is not covered by Parts is handed over (feedOf in envkinds.go): 0 one
+	// Write; 1-4 io.Copy from bare readers (full / last bytes together with io.EOF / short reads / 1000-byte
+	// reads with io.EOF on the last) - io.Copy uses the writer's ReadFrom when it offers one
+	Feed int `json:",omitempty"`
 }
 
 // sinkByteBuf is a sink that implements io.ByteWriter as well.
@@ -59,7 +63,7 @@ func lzmaWriteExec(p LZWCase, data []byte) (sink []byte, calls []callRes, verr e
 		sinkW = &sbb
 	}
 	pan = core.Guard(func() {
-		w, err := p.Cfg.build().NewWriter(sinkW)
+		w, err := p.Cfg.open(sinkW)
 		calls = append(calls, callRes{Call: "NewWriter", Err: err, Sink: len(sb.b)})
 		if err != nil {
 			return
@@ -81,8 +85,8 @@ func lzmaWriteExec(p LZWCase, data []byte) (sink []byte, calls []callRes, verr e
 			}
 		}
 		if !p.Hist && (len(rest) > 0 || len(p.Parts) == 0) {
-			n, err := w.Write(rest)
-			calls = append(calls, callRes{Call: "Write", N: n, Len: len(rest), Err: err, Sink: len(sb.b)})
+			n, err := feedOf(w, rest, p.Feed)
+			calls = append(calls, callRes{Call: "Write", N: int(n), Len: len(rest), Err: err, Sink: len(sb.b)})
 		}
 		err = w.Close()
 		calls = append(calls, callRes{Call: "Close", Err: err, Sink: len(sb.b)})
@@ -116,7 +120,7 @@ func lzmaWriteCase(r *core.Run, prop string, p LZWCase) {
 	if sizeKnown && p.Cfg.Size == 0 {
 		site += " size=0"
 	}
-	desc := fmt.Sprintf("cfg=%s input=%s (%d bytes) parts=%v hist=%v", p.Cfg, shapeString(p.Shape), len(data), p.Parts, p.Hist)
+	desc := fmt.Sprintf("cfg=%s input=%s (%d bytes) parts=%v hist=%v fed by %s", p.Cfg, shapeString(p.Shape), len(data), p.Parts, p.Hist, feedModeNames[p.Feed])
 	if pan != nil {
 		if prop == "C06" {
 			r.Violate(cs, site+" → panic@"+pan.Site(), desc, pan.Value+" | "+pan.Stack, "no panic")
@@ -513,6 +517,28 @@ func lzmaWCases(r *core.Run, prop string) []LZWCase {
 		}
 		rec(nil)
 	}
+	// the inputs of the families without explicit properties again, handed over by io.Copy from
+	// bare readers (which prefers a ReadFrom method of the writer, should it have one)
+	{
+		base := cases
+		for _, c := range base {
+			if c.Hist || len(c.Parts) > 0 || c.Cfg.Props || c.ByteSink {
+				continue
+			}
+			feeds := []int{1, 2, 3, 4}
+			if len(buildShape(c.Shape)) > 6000 {
+				if c.Cfg.Matcher != 0 || c.Cfg.BufSize == 273 || c.Cfg.EOS {
+					continue // cost bound: long inputs with the hash-table matcher and one termination mode each
+				}
+				feeds = []int{2, 3}
+			}
+			for _, f := range feeds {
+				q := c
+				q.Feed = f
+				cases = append(cases, q)
+			}
+		}
+	}
 	return cases
 }
 
@@ -528,7 +554,7 @@ func runLZW(r *core.Run, prop string) {
 }
 
 func runC06(r *core.Run) {
-	r.Rule = "classic LZMA writer space: (a) all strings over {00,'a','b'} up to length n x all 225 property codes x both matchers x {EOS only, Size=len, Size=len+EOS} (Size=0 for the empty input); (b) longer heads with a compressible tail; (c) shape lists of depth 1-2 x DictCap x BufSize; (d) all compositions of 6-byte inputs into Write calls (+ zero-length writes); (e) size-contract histories: all sequences of <=4 calls from {Write of 0,1,S-1,S,S+1 bytes, Close in the middle} then Close for S in {0,1,5}, and all sequences of <=3 calls from {Write of 1,4096,S-4096,S-1,S,S+1 bytes, Close in the middle} for S=9000 (above the 4096-byte dictionary), with a plain sink and with a sink that is an io.ByteWriter. Oracle: call contract, library round trip, header size truthful. states = (mode, accepted vs Size, close result); transitions = per-call classes; non-trivial = distinct (mode, result, size class, history length)"
+	r.Rule = "classic LZMA writer space: (a) all strings over {00,'a','b'} up to length n x all 225 property codes x both matchers x {EOS only, Size=len, Size=len+EOS} (Size=0 for the empty input); (b) longer heads with a compressible tail; (c) shape lists of depth 1-2 x DictCap x BufSize; (d) all compositions of 6-byte inputs into Write calls (+ zero-length writes); (e) size-contract histories: all sequences of <=4 calls from {Write of 0,1,S-1,S,S+1 bytes, Close in the middle} then Close for S in {0,1,5}, and all sequences of <=3 calls from {Write of 1,4096,S-4096,S-1,S,S+1 bytes, Close in the middle} for S=9000 (above the 4096-byte dictionary), with a plain sink and with a sink that is an io.ByteWriter; (f) the inputs of (b)-(c) handed over by io.Copy from bare readers (full reads, last bytes together with io.EOF, short reads). Oracle: call contract, library round trip, header size truthful. states = (mode, accepted vs Size, close result); transitions = per-call classes; non-trivial = distinct (mode, result, size class, history length)"
 	runLZW(r, "C06")
 	r.Assume("property sets with lc+lp>8 run on a seventh of the inputs (literal table of up to 6 MB per coder: cost bound)")
 }
